@@ -379,6 +379,11 @@ func (c *kctx) stmts(list []ast.Stmt, k func(c *kctx) string) string {
 }
 
 func (c *kctx) assignStmt(n *ast.AssignStmt, rest []ast.Stmt, k func(c *kctx) string) string {
+	if c.ext != nil && c.ext.assign != nil {
+		if t, ok := c.ext.assign(c, n, rest, k); ok {
+			return t
+		}
+	}
 	var pre []kbind
 	var lets []string
 	switch n.Tok {
